@@ -280,7 +280,7 @@ func scheduleString(pts []choicePt) string {
 }
 
 // exploreScenario runs the DFS with the given bounds.
-func exploreScenario(c *Ctx, sc *scenario, levelB bool, maxPreempt, maxPoolDev int) {
+func exploreScenario(c *Ctx, sc *scenario, levelB bool, maxPreempt, maxPoolDev int, shard, nshards int) {
 	// sequential reference: each thread alone (no other thread alive => no scheduling choices)
 	want := make([]string, 0)
 	threads, operands := sc.mk()
@@ -297,12 +297,20 @@ func exploreScenario(c *Ctx, sc *scenario, levelB bool, maxPreempt, maxPoolDev i
 		decimal.VerifSetThresholds(ok, obs, oks)
 	}
 	outcomes := map[string]bool{}
+	// the subtrees below the root execution are distributed over nshards units (shard 0 also judges the root)
+	rootChild := 0
 	var rec func(prefix []int)
 	rec = func(prefix []int) {
 		if c.Done() {
 			return
 		}
-		skip := c.Skip()
+		isRoot := prefix == nil
+		skip := false
+		if isRoot && shard != 0 {
+			skip = true
+		} else {
+			skip = c.Skip()
+		}
 		x := runSchedule(sc, prefix, levelB)
 		if !skip {
 			c.NonTrivial()
@@ -374,6 +382,12 @@ func exploreScenario(c *Ctx, sc *scenario, levelB bool, maxPreempt, maxPoolDev i
 						continue
 					}
 					child := append(append([]int(nil), choicesOf(x.points[:i])...), alt)
+					if isRoot {
+						rootChild++
+						if rootChild%nshards != shard {
+							continue
+						}
+					}
 					rec(child)
 				}
 			}
@@ -387,8 +401,16 @@ func exploreScenario(c *Ctx, sc *scenario, levelB bool, maxPreempt, maxPoolDev i
 			}
 		}
 	}
+	before := c.stat.Evals
 	rec(nil)
-	c.Count("distinct_outcomes_"+sc.name, int64(len(outcomes)))
+	lv := "A"
+	if levelB {
+		lv = "B"
+	}
+	c.Count("schedules_"+sc.name+"_level"+lv, c.stat.Evals-before)
+	if shard == 0 {
+		c.Count("distinct_outcomes_"+sc.name, int64(len(outcomes)))
+	}
 }
 
 func schedOperands() (x, y, w *Dec) {
@@ -422,7 +444,21 @@ func schedScenarios() []scenario {
 			return f(x, y, w), []*Dec{x, y, w}
 		}
 	}
+	fma := func(x, y, u *Dec, p uint32) thread {
+		return thread{"FMA", func() string { return dig(fresh(p, ToNearestAway).FMA(x, y, u)) }}
+	}
+	conv := func(x *Dec) thread {
+		return thread{"Rat/Int/Gob", func() string {
+			r, _ := x.Rat(nil)
+			i, _ := x.Int(nil)
+			b, _ := x.GobEncode()
+			return fmt.Sprint(r, i, len(b))
+		}}
+	}
 	return []scenario{
+		{"FMA||Quo", mk(func(x, y, w *Dec) []thread { return []thread{fma(x, w, y, 60), quo(w, y, 30, ToNearestEven)} }), thr},
+		{"Rat/Int/Gob||Mul(x,x)", mk(func(x, y, w *Dec) []thread { return []thread{conv(x), mul(x, x, 150)} }), thr},
+		{"Text||Sqrt", mk(func(x, y, w *Dec) []thread { return []thread{text(w), sqrt(w, 30, ToNearestEven)} }), thr},
 		{"Quo||Quo", mk(func(x, y, w *Dec) []thread { return []thread{quo(x, y, 40, ToNearestEven), quo(w, y, 25, ToZero)} }), thr},
 		{"Quo||Mul(x,x)", mk(func(x, y, w *Dec) []thread { return []thread{quo(x, y, 40, ToNearestEven), mul(y, y, 100)} }), thr},
 		{"Mul||Mul", mk(func(x, y, w *Dec) []thread { return []thread{mul(x, w, 200), mul(w, x, 30)} }), thr},
@@ -442,17 +478,32 @@ func schedLayers(tier string) []Layer {
 	thorough := tier == "thorough"
 	scs := schedScenarios()
 	type unit struct {
-		sc     int
-		levelB bool
+		sc             int
+		levelB         bool
+		shard, nshards int
 	}
 	var units []unit
 	for i := range scs {
-		units = append(units, unit{i, false}, unit{i, true})
+		threads, _ := scs[i].mk()
+		n := 1
+		if len(threads) > 2 {
+			n = 12 // the 3-thread level-A trees are the large ones: split below the root
+		}
+		for sh := 0; sh < n; sh++ {
+			units = append(units, unit{i, false, sh, n})
+		}
+		nb := 1
+		if len(threads) > 2 {
+			nb = 12
+		}
+		for sh := 0; sh < nb; sh++ {
+			units = append(units, unit{i, true, sh, nb})
+		}
 	}
 	return []Layer{{
 		Name:   "Z1-schedules",
 		Units:  len(units),
-		Bounds: "8 scenarios of 2–3 goroutines, each one operation with its own receiver on shared 3–5-word operands (thresholds 2/1/4 so that Karatsuba, squaring and long division use pooled scratch buffers); level A: scheduling points before and after every pool Get/Put, all interleavings for 2 threads (preemption bound 6; 3 threads: 3) × pool-answer deviations <= 2; level B: additionally a point before every arithmetic kernel call, preemption bound 2 (quick) / 3 (thorough), pool deviations <= 1; adversarial pool (garbage on Get, poison on Put, ownership tracking); oracle: each thread's result == its sequential result, operands unchanged, no panic, pool protocol respected",
+		Bounds: "11 scenarios of 2–3 goroutines, each one operation with its own receiver on shared 3–5-word operands (thresholds 2/1/4 so that Karatsuba, squaring and long division use pooled scratch buffers); level A: scheduling points before and after every pool Get/Put, all interleavings for 2 threads (preemption bound 6; 3 threads: 3) × pool-answer deviations <= 2; level B: additionally a point before every arithmetic kernel call, preemption bound 2 (quick) / 3 (thorough) for 2 and 3 threads, pool deviations <= 1; adversarial pool (garbage on Get, poison on Put, ownership tracking); oracle: each thread's result == its sequential result, operands unchanged, no panic, pool protocol respected",
 		Run: func(c *Ctx, u int) {
 			if !poolSeamsPresent() {
 				fmt.Fprintln(os.Stderr, "HARNESS-ERROR: pool seams not present in this build (overlay missing)")
@@ -465,20 +516,18 @@ func schedLayers(tier string) []Layer {
 				if thorough {
 					pb = 3
 				}
-				if len(threads) > 2 && !thorough {
-					pb = 1
-				}
+				_ = threads
 				if kernelPointsSeen(sc) == 0 {
 					fmt.Fprintln(os.Stderr, "HARNESS-ERROR: no kernel scheduling points seen (build without -tags decimal_pure_go / overlay --points)")
 					os.Exit(2)
 				}
-				exploreScenario(c, sc, true, pb, 1)
+				exploreScenario(c, sc, true, pb, 1, units[u].shard, units[u].nshards)
 			} else {
 				pb := 6
 				if len(threads) > 2 {
 					pb = 3
 				}
-				exploreScenario(c, sc, false, pb, 2)
+				exploreScenario(c, sc, false, pb, 2, units[u].shard, units[u].nshards)
 			}
 		},
 	}}
